@@ -380,6 +380,10 @@ func RunSub(name string) {
 		RunSubC17(name)
 		return
 	}
+	if strings.HasPrefix(name, "c07|") {
+		RunSubC07(name)
+		return
+	}
 	res := &subResult{}
 	expectReject := func(label string, t reflect.Type) {
 		for _, e := range []string{"encode", "decode", "size"} {
